@@ -92,6 +92,61 @@ def _progs():
     P["max_abs"] = lambda X, Y, V, W: xp.max(xp.abs(X), axis=1)
     P["mean_square"] = lambda X, Y, V, W: xp.mean(xp.astype(X, xp.float64) * 2.0, axis=0)
     P["vecdot"] = lambda X, Y, V, W: xp.vecdot(X, Y, axis=-1)
+    # -- added in round 4: the rest of the public surface (linalg, creation, selection, nan-functions, multi-output,
+    #    3-d, stores) and fused predecessors that narrow or are repeated
+    from cubed.core.ops import merge_chunks
+
+    P["qr"] = lambda X, Y, V, W: tuple(xp.linalg.qr(X[:, :48]))
+    P["svdvals"] = lambda X, Y, V, W: xp.linalg.svdvals(X[:, :48])
+    P["map_overlap"] = lambda X, Y, V, W: cubed.map_overlap(lambda b: b[1:-1, 1:-1] * 2, X, dtype=X.dtype, chunks=X.chunks, depth=1, boundary=0)
+    P["take"] = lambda X, Y, V, W: xp.take(X, xp.asarray(list(range(0, X.shape[0], 3)), spec=X.spec), axis=0)
+    P["merge_chunks"] = lambda X, Y, V, W: merge_chunks(X, (X.chunksize[0] * 2, X.chunksize[1]))
+    P["random"] = lambda X, Y, V, W: cubed.random.random(X.shape, chunks=X.chunksize, spec=X.spec)
+    P["eye"] = lambda X, Y, V, W: xp.eye(X.shape[0], X.shape[1], dtype=X.dtype, chunks=X.chunksize, spec=X.spec)
+    P["linspace"] = lambda X, Y, V, W: xp.linspace(0.0, 1.0, X.shape[0] * 64, chunks=(X.chunksize[0] * 64,), spec=X.spec)
+    P["arange"] = lambda X, Y, V, W: xp.arange(X.shape[0] * 64, chunks=(X.chunksize[0] * 64,), spec=X.spec)
+    P["full_like"] = lambda X, Y, V, W: xp.full_like(X, 3) + X
+    P["std_axis1"] = lambda X, Y, V, W: xp.std(xp.astype(X, xp.float64), axis=1)
+    P["prod_axis0"] = lambda X, Y, V, W: xp.prod(X, axis=0)
+    P["all_gt"] = lambda X, Y, V, W: xp.all(X > 0, axis=0)
+    P["any_and"] = lambda X, Y, V, W: xp.any(xp.logical_and(X > 1, Y > 1), axis=1)
+    P["nanmax"] = lambda X, Y, V, W: cubed.nanmax(xp.astype(X, xp.float64), axis=1)
+    P["nansum"] = lambda X, Y, V, W: cubed.nansum(xp.astype(X, xp.float64), axis=0)
+    P["cumprod"] = lambda X, Y, V, W: xp.cumulative_prod(X, axis=0)
+    P["nancumsum"] = lambda X, Y, V, W: cubed.nancumsum(xp.astype(X, xp.float64), axis=1)
+    P["triu"] = lambda X, Y, V, W: xp.triu(X, k=1)
+    P["searchsorted"] = lambda X, Y, V, W: xp.searchsorted(xp.cumulative_sum(xp.abs(V)), W[: V.shape[0] // 2])
+    P["gufunc_mean"] = lambda X, Y, V, W: cubed.apply_gufunc(
+        lambda a: np.mean(a, axis=-1), "(i)->()", X.rechunk((max(1, X.chunksize[0] // 2), X.shape[1])), output_dtypes=np.float64)
+    P["clip"] = lambda X, Y, V, W: xp.clip(X, 1, 50)
+    P["pow"] = lambda X, Y, V, W: xp.pow(xp.astype(X, xp.float64), 2.0)
+    P["logaddexp"] = lambda X, Y, V, W: xp.logaddexp(xp.astype(X, xp.float64), xp.astype(Y, xp.float64))
+    P["to_zarr"] = lambda X, Y, V, W: cubed.to_zarr(X * 2, os.path.join(X.spec.work_dir, "out.zarr"), compute=False)
+    P["stack_sum02"] = lambda X, Y, V, W: xp.sum(xp.stack([X, Y]), axis=(0, 2))
+    P["stack_perm"] = lambda X, Y, V, W: xp.permute_dims(xp.stack([X, Y]), (2, 0, 1))
+    P["stack_moveaxis"] = lambda X, Y, V, W: xp.moveaxis(xp.stack([X, Y]), 0, -1)
+    P["meshgrid"] = lambda X, Y, V, W: tuple(xp.meshgrid(V[: X.shape[1]], W[: X.shape[1]]))
+    P["broadcast_arrays"] = lambda X, Y, V, W: tuple(xp.broadcast_arrays(X, W))
+    P["index_neg_step"] = lambda X, Y, V, W: X[::-1, :]
+    P["index_int"] = lambda X, Y, V, W: X[:, 5]
+    P["index_newaxis"] = lambda X, Y, V, W: X[None, 1:, :]
+    P["concat_misaligned"] = lambda X, Y, V, W: xp.concat([X[1:, :], Y, X[:7, :]], axis=0)
+    P["roll2"] = lambda X, Y, V, W: xp.roll(X, (3, 5), axis=(0, 1))
+    P["diff2_prepend"] = lambda X, Y, V, W: xp.diff(X, n=2, axis=1, prepend=Y[:, :3])
+    P["unstack"] = lambda X, Y, V, W: tuple(xp.unstack(X[:3, :]))
+    P["nanmedian"] = lambda X, Y, V, W: cubed.nanmedian(xp.astype(X, xp.float64), axis=0)
+    P["where_scalar"] = lambda X, Y, V, W: xp.where(X > 1, X, 0)
+    P["outer_sum"] = lambda X, Y, V, W: xp.sum(xp.linalg.outer(V, W), axis=0)
+    P["matmul_sum"] = lambda X, Y, V, W: xp.sum(xp.matmul(X, xp.permute_dims(Y, (1, 0))), axis=1)
+    P["tensordot2"] = lambda X, Y, V, W: xp.tensordot(X, Y, axes=2)
+    P["count_nonzero"] = lambda X, Y, V, W: xp.count_nonzero(X, axis=0)
+    P["squeeze_sum_keep"] = lambda X, Y, V, W: xp.squeeze(xp.sum(X, axis=0, keepdims=True), axis=0)
+    P["from_array"] = lambda X, Y, V, W: cubed.from_array(np.ones(X.shape, dtype=X.dtype), chunks=X.chunksize, spec=X.spec) + X
+    # one fused predecessor with several sources feeding two arguments of its consumer
+    P["sqdiff"] = lambda X, Y, V, W: (lambda d: d * d)(X - Y)
+    P["sqdiff_sum"] = lambda X, Y, V, W: (lambda d: xp.sum(d * d, axis=0))(X - Y)
+    P["where_repeated"] = lambda X, Y, V, W: (lambda d: xp.where(d > 1, d, d + d))(X + Y)
+    P["three_way"] = lambda X, Y, V, W: (lambda d, e: d * e + d)(X - Y, X + Y)
     return P
 
 
@@ -99,12 +154,21 @@ PROG_NAMES = ["negative", "add", "chain", "greater", "astype_small", "where", "s
               "var_axis0", "argmax_axis0", "nanmean", "cumsum", "matmul", "tensordot", "transpose", "rechunk", "rechunk_t", "concat0",
               "concat1", "stack", "pad", "roll", "flip", "index_step", "index_offset", "index_array", "repeat", "broadcast_to", "outer",
               "diff", "reshape", "tril", "expand_squeeze", "isin", "map_blocks", "sum_of_product", "vecdot", "sum_negative", "max_abs", "mean_square",
-              "repeat_6", "repeat_8_ax1", "cumsum_ax1", "tile"]
+              "repeat_6", "repeat_8_ax1", "cumsum_ax1", "tile",
+              "qr", "svdvals", "map_overlap", "take", "merge_chunks", "random", "eye", "linspace", "arange", "full_like", "std_axis1",
+              "prod_axis0", "all_gt", "any_and", "nanmax", "nansum", "cumprod", "nancumsum", "triu", "searchsorted", "gufunc_mean", "clip",
+              "pow", "logaddexp", "to_zarr", "stack_sum02", "stack_perm", "stack_moveaxis", "meshgrid", "broadcast_arrays",
+              "index_neg_step", "index_int", "index_newaxis", "concat_misaligned", "roll2", "diff2_prepend", "unstack", "nanmedian",
+              "where_scalar", "outer_sum", "matmul_sum", "tensordot2", "count_nonzero", "squeeze_sum_keep", "from_array",
+              "sqdiff", "sqdiff_sum", "where_repeated", "three_way"]
 
 
 MANY_BLOCKS_ALONG = {"sum_negative": "tall", "mean_square": "tall", "max_abs": "wide", "sum_of_product": "wide", "vecdot": "wide",
                      "sum_axis0": "tall", "var_axis0": "tall", "max_axis1": "wide", "mean_axis1": "wide", "argmax_axis0": "tall",
-                     "nanmean": "tall", "cumsum": "tall", "cumsum_ax1": "wide", "sum_all": "tall"}
+                     "nanmean": "tall", "cumsum": "tall", "cumsum_ax1": "wide", "sum_all": "tall",
+                     "std_axis1": "wide", "prod_axis0": "tall", "all_gt": "tall", "any_and": "wide", "nanmax": "wide", "nansum": "tall",
+                     "cumprod": "tall", "nancumsum": "wide", "sqdiff_sum": "tall", "count_nonzero": "tall", "matmul_sum": "wide",
+                     "stack_sum02": "wide"}
 
 
 def draw_case(rng, tier, idx):
@@ -301,7 +365,7 @@ def finalize(tier, merged):
         "floors": [
             ("tasks measured", c.get("tasks_measured", 0), 2000 if tier == "quick" else 4500),
             ("tasks whose projection is dominated by data (>= 1 chunk above reserved_mem)", c.get("data_dominated_tasks", 0), 1200 if tier == "quick" else 3000),
-            ("distinct programs exercised", len(merged["hist"].get("ops", {})), 30),
+            ("distinct programs exercised", len(merged["hist"].get("ops", {})), 80),
         ],
         "coverage_extra": {"max_ratio_peak_over_projected_by_program": ratios},
         "assumptions": ASSUMPTIONS,
